@@ -87,6 +87,7 @@ type Scenario struct {
 	Prefix  []COp
 	Writers []COp
 	Target  int64 // C15: the transaction being reverted
+	Late    int   // writers with index >= len(Writers)-Late start only after all the others have answered (non-overlapping requests)
 }
 
 func fund(acc, asset string, amt int64) COp {
@@ -98,7 +99,7 @@ func spend(mode, src, dst string, amt, allow int64) COp {
 
 var scenarioNames = []string{
 	"c06-plain2", "c06-plain3", "c06-od2", "c06-od3", "c06-unb2", "c06-force2", "c06-revert", "c06-cross",
-	"c16-disjoint", "c16-rollback",
+	"c16-disjoint", "c16-rollback", "c16-nonoverlap",
 	"c13-same2", "c13-same3", "c13-diff2", "c13-spend2", "c13-revert2",
 	"c14-ref2", "c14-ref3", "c14-refworld",
 	"c15-rev2", "c15-rev3", "c15-revforce",
@@ -163,6 +164,11 @@ func buildScenario(name string, fresh, hash bool) *Scenario {
 		w2 := spend("force", "dave", "bob", 10, 0)
 		w2.Ref = "used"
 		s.Writers = []COp{spend("plain", "alice", "bob", 10, 0), spend("plain", "carol", "dave", 10, 0), w2}
+	case "c16-nonoverlap": // two overlapping writers on disjoint accounts (two pooled connections), then a third request issued
+		// strictly after both have answered: it reuses one of the two connections
+		s.Prefix = append(s.Prefix, fund("alice", "USD", 100), fund("carol", "USD", 100))
+		s.Writers = []COp{spend("plain", "alice", "bob", 10, 0), spend("plain", "carol", "dave", 10, 0), spend("plain", "alice", "dave", 10, 0)}
+		s.Late = 1
 	case "c13-same2", "c13-same3":
 		s.Writers = withIK("k", fund("alice", "USD", 10), fund("alice", "USD", 10))
 		if name == "c13-same3" {
@@ -255,6 +261,7 @@ type schedWorker struct {
 	resume    chan struct{}
 	res       OpResult
 	committed bool // a COMMIT happened during the last slice
+	late      bool // not started before every non-late worker is done
 }
 
 type schedEvent struct {
@@ -311,6 +318,8 @@ func stmtLabel(sql string) string {
 		return "ik"
 	case strings.HasPrefix(q, `with "ins" as (insert into`) && has("accounts_volumes") && has("for update"):
 		return "bal"
+	case strings.HasPrefix(q, "select") && has("accounts_volumes") && has("for update"):
+		return "bal2" // GetBalances, second statement: rows that did not exist when the first one started
 	case strings.HasPrefix(q, "insert into") && has("accounts_volumes") && has("do update set input"):
 		return "vol"
 	case strings.HasPrefix(q, "insert into") && has(".transactions ("):
@@ -545,7 +554,7 @@ func runSchedule(scn *Scenario, pol schedPolicy) *SchedRun {
 	run := &SchedRun{Scn: scn}
 	cs := &coopSched{pg: st.PG, byGid: map[uint64]*schedWorker{}, back: make(chan *schedWorker)}
 	for i, o := range scn.Writers {
-		cs.workers = append(cs.workers, &schedWorker{idx: i, op: o, resume: make(chan struct{})})
+		cs.workers = append(cs.workers, &schedWorker{idx: i, op: o, resume: make(chan struct{}), late: i >= len(scn.Writers)-scn.Late})
 	}
 	st.PG.Sched = cs
 	st.PG.TxHook = cs.txHook
@@ -591,14 +600,23 @@ func runSchedule(scn *Scenario, pol schedPolicy) *SchedRun {
 		}
 	}
 	// pre-roll: every worker runs (silent statements only) up to its first scheduling point, in index order
-	for _, w := range cs.workers {
-		w.state = wRunning
-		w.resume <- struct{}{}
-		<-cs.back
+	start := func(late bool) {
+		for _, w := range cs.workers {
+			if w.late == late && w.state == wNew {
+				w.state = wRunning
+				w.resume <- struct{}{}
+				<-cs.back
+			}
+		}
 	}
+	start(false)
 	cur := -1
 	for i := 0; ; i++ {
 		rn, woken := cs.runnable()
+		if len(rn) == 0 { // everybody who has started is done: the late requests are issued now (same pre-roll)
+			start(true)
+			rn, woken = cs.runnable()
+		}
 		if len(rn) == 0 {
 			for _, w := range cs.workers {
 				if w.state != wDone {
@@ -742,6 +760,38 @@ func (r *SchedRun) monitors() {
 				add("C16", fmt.Sprintf("[c16-logid-commit-order-%s] writer %d committed after log id %d was committed but received the smaller id %d", hashed, c, lastL, x.LogID))
 			}
 			lastL = x.LogID
+		}
+	}
+	// ---- C16, requests that do not overlap: if no statement of request j (other than BEGIN, which reads nothing under READ
+	// COMMITTED) ran before the COMMIT of request i, then j drew its transaction id after i's commit and must have the larger one
+	// (nextval hands out increasing values in call order).  Holds whatever the schedule; S-16 is about OVERLAPPING requests only.
+	{
+		first, commitAt := map[int]int{}, map[int]int{}
+		for k, e := range r.Events {
+			if _, ok := first[e.w]; !ok {
+				first[e.w] = k
+			}
+			if e.label == "commit" && e.status == "done" {
+				commitAt[e.w] = k
+			}
+		}
+		for i, xi := range r.Res {
+			ci, ok := commitAt[i]
+			if !ok || xi.Class != "none" || xi.Hit || xi.TxID == nil {
+				continue
+			}
+			for j, xj := range r.Res {
+				fj, started := first[j]
+				if j == i || !started || fj < ci || xj.Class != "none" || xj.Hit || xj.TxID == nil {
+					continue
+				}
+				if *xj.TxID < *xi.TxID {
+					add("C16", fmt.Sprintf("[c16-nonoverlapping-order] writer %d ran entirely after the COMMIT of writer %d (transaction id %d) and received the smaller transaction id %d", j, i, *xi.TxID, *xj.TxID))
+				}
+				if xj.LogID < xi.LogID {
+					add("C16", fmt.Sprintf("[c16-nonoverlapping-order] writer %d ran entirely after the COMMIT of writer %d (log id %d) and received the smaller log id %d", j, i, xi.LogID, xj.LogID))
+				}
+			}
 		}
 	}
 	// ---- C13: requests sharing an idempotency key
